@@ -87,3 +87,19 @@ func GenDoc(c *simkit.Choices, f model.Format, o model.GenOpts, n int) *model.Do
 		return model.WriteUBJSONStream(c, vals, model.DrawUBStyle(c))
 	}
 }
+
+// BufSizes are the decoder buffer sizes the simulator draws from: tiny ones,
+// the parsers' inline buffer boundary (63/64/65), powers of two and their
+// neighbours, and large ones.
+var BufSizes = []int{1, 2, 3, 4, 7, 8, 9, 15, 16, 17, 31, 32, 33, 63, 64, 65, 127, 128, 129, 255, 256, 257, 1024, 4095, 4096, 4097}
+
+// DrawBufSize draws a buffer size; a third of the time exactly the length of a
+// token or of the document (a buffer exactly as large as what it must hold).
+func DrawBufSize(c *simkit.Choices, exact ...int) int {
+	if len(exact) > 0 && c.N(3) == 0 {
+		if n := exact[c.N(len(exact))] + c.N(3) - 1; n >= 1 {
+			return n
+		}
+	}
+	return BufSizes[c.N(len(BufSizes))]
+}
